@@ -554,6 +554,36 @@ fn assembled_line_unit(rng: &mut Rng, prog: &[u8]) -> Vec<(String, Vec<u8>)> {
     assembled_line_unit_with(lb, lr, prog)
 }
 
+/// a one-unit DWARF 4 image (8-byte addresses) whose only child DIE is a DW_TAG_variable with the
+/// given bytes as DW_AT_location (DW_FORM_exprloc)
+pub fn assembled_expr_unit(expr: &[u8]) -> Vec<(String, Vec<u8>)> {
+    // abbrev 1: compile_unit, children, name(string); abbrev 2: variable, no children, location(exprloc)
+    let abbrev = vec![1u8, 0x11, 1, 0x03, 0x08, 0, 0, 2, 0x34, 0, 0x02, 0x18, 0, 0, 0];
+    let mut die = vec![1u8];
+    die.extend_from_slice(b"a.c\0");
+    die.push(2);
+    die.extend(asm::uleb(expr.len() as u64));
+    die.extend_from_slice(expr);
+    die.push(0);
+    let mut ubody = vec![4u8, 0, 0, 0, 0, 0, 8];
+    ubody.extend(die);
+    let mut info = (ubody.len() as u32).to_le_bytes().to_vec();
+    info.extend(ubody);
+    vec![("debug_abbrev".into(), abbrev), ("debug_info".into(), info)]
+}
+
+/// `depth` nested DW_OP_entry_value operations around DW_OP_reg0
+pub fn nested_entry_value(depth: usize) -> Vec<u8> {
+    let mut e = vec![0x50u8];
+    for _ in 0..depth {
+        let mut o = vec![0xa3u8];
+        o.extend(asm::uleb(e.len() as u64));
+        o.extend(e);
+        e = o;
+    }
+    e
+}
+
 /// a one-unit DWARF 4 image whose line program header has the given line_base / line_range
 pub fn assembled_line_unit_with(lb: i8, lr: u8, prog: &[u8]) -> Vec<(String, Vec<u8>)> {
     let mut hdr_rest = vec![1u8, 1, 1, lb as u8, lr, 13];
